@@ -102,3 +102,10 @@ Theorem C20_document_texts : forall o v,
   texts_of (document o v) = [[c_nl]; [c_nl]; [c_nl]; [c_nl]; [c_nl]] ++ texts_of (tree_view o v) ++ [[c_nl]; [c_nl]].
 Proof. exact document_texts. Qed.
 Print Assumptions C20_document_texts.
+
+(* The head (the shared style block) does not depend on the data: two values of the same shape -- same keys and kinds of leaves,
+   strings of the same length, every other string arbitrary -- get exactly the same head, and the document is that head
+   followed by the body. *)
+Theorem C20_head_data_independent : forall o a b, same_shape a b -> head_of o a = head_of o b.
+Proof. exact head_data_independent. Qed.
+Print Assumptions C20_head_data_independent.
